@@ -34,6 +34,23 @@ READING OF PYTHON (the trusted part; the Coq side of every item is defined in co
              returns (final value of the state paths..., return value).
   ignored    docstrings, comments, formatting, `pass`, calls of LOGGER.* / logging.* / print / warnings.warn
              in statement position; names of locals and parameters.
+  phase 2    generators: a function with `yield` denotes the LIST of the values it yields (list(gen(...)) at the callers);
+             "it = iter(X); try: while True: ...next(it)... except StopIteration: H" is read as "for x in X: ...; H" (only
+             when next(it) occurs once, in the first statement of the loop body, `it` is used nowhere else and nothing
+             else in the body is a call).  [e for x in xs if c] = map/filter; a comprehension element may contain several
+             partial operations (obind, left to right).  sum(xs) = fold_left + from the literal 0; min(xs)/max(xs) on a
+             list = first smallest/largest, ValueError = None; xs[:k] with an int k = py_upto_z; xs[:] = a copy.
+             `break` in a while = a flag tested first by the loop condition; `return` inside a while is allowed.
+             b.extend(xs) on a fresh, non-escaping local list = b ++ xs.  Tuples are products.
+             obj.attr[:] = e on a declared state path replaces the attribute (FixedLengthArray conversion not modelled).
+             A function with ret=None is a procedure: its result is the tuple of final values of its state paths.
+             `effects`: a declared callee (method of self / of an opaque local / a parameter) is a FUNCTION from the declared
+             attributes it reads to the declared attributes it writes; nothing else is assumed to change.  An attribute of
+             an object that is itself a changing state value is read through a declared reader (self._extensions).
+             `assume`: the outcome of an if-test is DECLARED (isinstance(x, int), callback is not None); only the taken
+             branch is translated, the assumption is printed above the generated definition, and the same Python function
+             may be translated once per assumption set.  Callees may be declared with keyword names and the Python default
+             of an omitted keyword (kwdefaults) — a declared fact about the callee's signature.
 Anything else raises Unsupported naming the construct and line: the function is NOT emitted, its
 `translate:<function>` obligation is broken, and every Tie file that mentions it no longer builds.
 """
@@ -66,8 +83,10 @@ def L(t):
     return ("L", t)
 
 
-def F(args, ret, partial=False):
-    return ("F", tuple(args), ret, bool(partial))
+def F(args, ret, partial=False, kw=(), kwdefaults=None):
+    """callee type; the last len(kw) arguments may be passed by keyword under these names; kwdefaults gives the Coq
+    term used when such an argument is omitted at the call (the Python default of the callee, DECLARED here)"""
+    return ("F", tuple(args), ret, bool(partial), tuple(kw), tuple(sorted((kwdefaults or {}).items())))
 
 
 def is_list(t):
@@ -91,6 +110,8 @@ def coq_type(t, top=True):
         return "T"
     if t == DIR:
         return "bool"
+    if isinstance(t, str) and t.startswith("T_"):
+        return t[2:]                      # a further opaque carrier (Section variable of Gen/Core.v)
     if is_list(t):
         s = "list " + coq_type(t[1], False)
         return s if top else "(" + s + ")"
@@ -108,8 +129,15 @@ def coq_type(t, top=True):
 
 # ----------------------------------------------------------------------------------------------- specs
 class Spec:
-    def __init__(self, coq, file, qual, inputs, ret, state=(), defaults=()):
+    def __init__(self, coq, file, qual, inputs, ret, state=(), defaults=(), effects=None, assume=None):
         self.coq, self.file, self.qual = coq, file, qual
+        self.key = qual           # name of the translate:<key> obligation (several definitions may come from one function)
+        # effects: {callee path: {"args": [object paths], "reads": [state/input paths], "writes": [state paths]}} — a callee
+        #   that updates the listed attributes of the objects it is given, as a function of the listed ones
+        self.effects = dict(effects or {})
+        # assume: {python expression text: bool} — tests whose outcome is DECLARED (e.g. isinstance(x, int)); printed in the output
+        self.assume = dict(assume or {})
+        self.used_assumptions = []
         self.inputs = list(inputs)          # (path, coqname, type)
         self.ret = ret
         self.state = list(state)            # paths that may be stored; must be inputs
@@ -155,13 +183,85 @@ SPECS = [
     Spec("bin2gray", "platypus/types.py", "bin2gray", [("0", "bits", L(B))], L(B)),
     Spec("int2bin", "platypus/types.py", "int2bin", [("fuel", "fuel", "nat"), ("0", "n", Z), ("1", "nbits", Z)], L(B)),
 ]
-SPEC_BY_QUAL = {s.qual: s for s in SPECS}
+SPECS += [
+    # list(_chunks(items, n)): the sequence of chunks the generator yields
+    Spec("chunks", "platypus/evaluator.py", "_chunks", [("0", "items", L(T)), ("1", "n", Z)], L(L(T))),
+]
+KEY, CMP, VAL, TY = "T_Key", "T_Cmp", "T_Val", "T_Ty"
+SPECS += [
+    Spec("matches_gen", "platypus/filters.py", "_matches",
+         [("0", "solutions", L(T)), ("1", "value", Z), ("2", "key", F([T], Z))], L(T)),
+    Spec("matches", "platypus/filters.py", "matches",
+         [("_matches", "matches_gen", F([L(T), Z, F([T], Z)], L(T), partial=True, kw=("key",))),
+          ("0", "solutions", L(T)), ("1", "value", Z), ("2", "key", F([T], Z))], L(T)),
+    Spec("truncate", "platypus/filters.py", "truncate",
+         [("sorted", "sorted", F([L(T), KEY, B], L(T), kw=("key", "reverse"))),
+          ("0", "solutions", L(T)), ("1", "size", Z), ("2", "key", KEY), ("3", "reverse", B)], L(T), defaults=["reverse"]),
+    Spec("nondominated_truncate", "platypus/core.py", "nondominated_truncate",
+         [("truncate", "truncate", F([L(T), Z, KEY, B], L(T), kw=("key", "reverse"), kwdefaults={"reverse": "false"})),
+          ("functools.cmp_to_key", "cmp_to_key", F([CMP], KEY)), ("nondominated_sort_cmp", "sort_cmp", CMP),
+          ("0", "solutions", L(T)), ("1", "size", Z)], L(T)),
+    Spec("truncate_fitness", "platypus/core.py", "truncate_fitness",
+         [("truncate", "truncate", F([L(T), Z, KEY, B], L(T), kw=("key", "reverse"), kwdefaults={"reverse": "false"})),
+          ("0", "solutions", L(T)), ("1", "size", Z), ("2", "larger_preferred", B), ("3", "getter", KEY)], L(T),
+         defaults=["larger_preferred"]),
+    Spec("nondominated_split", "platypus/core.py", "nondominated_split",
+         [("fuel", "fuel", "nat"), ("matches", "matches", F([L(T), Z, KEY], L(T), kw=("key",))), ("rank_key", "rank_key", KEY),
+          ("0", "solutions", L(T)), ("1", "size", Z)], ("P", (L(T), L(T)))),
+    # Problem.__call__(solution): a procedure on the attributes of the solution
+    Spec("Problem_call", "platypus/core.py", "Problem.__call__",
+         [("0.evaluate", "evaluate", F([L(VAL)], ("P", (L(V), L(V))))),
+          ("@T_Ty.decode", "decode", F([TY, VAL], VAL)), ("@T_Ty.encode", "encode", F([TY, VAL], VAL)),
+          ("1.problem.types", "types", L(TY)), ("1.problem.nvars", "nvars", Z),
+          ("1.problem.constraints", "constraint_functions", L(F([V], V))),
+          ("1.variables", "variables", L(VAL)), ("1.objectives", "objectives", L(V)), ("1.constraints", "constraints", L(V)),
+          ("1.constraint_violation", "constraint_violation", V), ("1.feasible", "feasible", B), ("1.evaluated", "evaluated", B)],
+         None,
+         state=["1.variables", "1.objectives", "1.constraints", "1.constraint_violation", "1.feasible", "1.evaluated"],
+         effects={"0.evaluate": {"args": ["1"], "reads": ["1.variables"], "writes": ["1.objectives", "1.constraints"]}}),
+]
+ST, EXT, COND = "T_St", "T_Ext", "T_Cond"
+
+
+def run_spec(coq, with_callback):
+    """Algorithm.run(condition, callback): `self` is an opaque state that every hook / step / callback transforms"""
+    return Spec(coq, "platypus/core.py", "Algorithm.run",
+                [("fuel", "fuel", "nat"),
+                 ("0._extensions", "extensions_of", F([ST], L(EXT))),
+                 ("@T_Ext.start_run", "ext_start_run", F([EXT, ST], ST)), ("@T_Ext.pre_step", "ext_pre_step", F([EXT, ST], ST)),
+                 ("@T_Ext.post_step", "ext_post_step", F([EXT, ST], ST)), ("@T_Ext.end_run", "ext_end_run", F([EXT, ST], ST)),
+                 ("0.step", "step", F([ST], ST)),
+                 ("1.initialize", "initialize", F([COND, ST], COND)), ("1()", "should_stop", F([COND, ST], B)),
+                 ("2", "callback", F([ST], ST)),
+                 ("0", "self", ST), ("1", "condition", COND)],
+                None, state=["0", "1"],
+                effects={"@T_Ext.start_run": {"args": ["0"], "reads": ["0"], "writes": ["0"]},
+                         "@T_Ext.pre_step": {"args": ["0"], "reads": ["0"], "writes": ["0"]},
+                         "@T_Ext.post_step": {"args": ["0"], "reads": ["0"], "writes": ["0"]},
+                         "@T_Ext.end_run": {"args": ["0"], "reads": ["0"], "writes": ["0"]},
+                         "0.step": {"args": [], "reads": ["0"], "writes": ["0"]},
+                         "1.initialize": {"args": ["0"], "reads": ["1", "0"], "writes": ["1"]},
+                         "2": {"args": ["0"], "reads": ["0"], "writes": ["0"]}},
+                assume={"isinstance(<1>, int)": False, "isinstance(<1>, TerminationCondition)": True,
+                        "<2> is not None": with_callback})
+
+
+SPECS += [run_spec("Algorithm_run", True), run_spec("Algorithm_run_no_callback", False)]
+NOT_SOLUTIONS = {"isinstance(<0>, Solution)": False, "isinstance(<1>, Solution)": False}
+SPECS += [
+    # distance.py on two objective vectors (the isinstance(…, Solution) unwrapping is declared not taken)
+    Spec("manhattan_dist", "platypus/distance.py", "manhattan_dist", [("0", "x", L(V)), ("1", "y", L(V))], V, assume=NOT_SOLUTIONS),
+    Spec("euclidean_dist", "platypus/distance.py", "euclidean_dist",
+         [("math.sqrt", "sqrt", F([V], V)), ("0", "x", L(V)), ("1", "y", L(V))], V, assume=NOT_SOLUTIONS),
+]
+[sp for sp in SPECS if sp.coq == "Algorithm_run_no_callback"][0].key = "Algorithm.run[callback=None]"
+SPEC_BY_QUAL = {s.key: s for s in SPECS}
 
 RESERVED = set("""
 as at cofix else end exists exists2 fix for forall fun if IF in let match mod return Set Prop Type then using where with
 V O T Z Q nat list bool option true false Some None tt negb andb orb xorb fst snd pair map seq nth length app rev
 ctl Next Ret Raise bind get finish for_list for_range while_fuel zrange py_index py_len map_opt py_compress py_any py_zip
-py_upto py_from py_but_last py_div py_min py_max b2z py_last NumOps Qops
+py_upto py_from py_but_last py_div py_min py_max b2z py_last NumOps Qops yielded brk obind py_sum py_upto_z py_list_min py_list_max
 n_lt n_le n_eq n_neg n_add n_sub n_mul n_div n_abs n_floor n_of_Z n_lit
 """.split())
 
@@ -209,6 +309,9 @@ def coerce(x, ty, node=None):
         return x
     if is_list(x.ty) and is_list(ty) and (x.ty[1] is None or ty[1] is None):
         return X(x.s, ty if x.ty[1] is None else x.ty)
+    if isinstance(x.ty, tuple) and isinstance(ty, tuple) and x.ty[0] == "P" and ty[0] == "P" and len(x.ty[1]) == len(ty[1]) \
+            and all(a == b or (is_list(a) and is_list(b) and (a[1] is None or b[1] is None)) for a, b in zip(x.ty[1], ty[1])):
+        return X(x.s, ty)
     if x.cond is not None and x.ty in (ZLIT, Z, V):
         c, a, b = x.cond
         a2, b2 = coerce(a, ty, node), coerce(b, ty, node)
@@ -272,6 +375,10 @@ class Env:
         return e
 
     def coqname(self, pyname):
+        if pyname == "%out":
+            return "yielded"
+        if pyname == "%brk":
+            return "brk"
         n = pyname.lstrip("_") or "v"
         n = "".join(ch if (ch.isalnum() or ch == "_") else "_" for ch in n)
         if not n[0].isalpha():
@@ -336,17 +443,85 @@ class FnTranslator:
         self.pure = True
         self.uses_fuel = False
         self.tainted = set()       # locals that were ever bound to a list that is not fresh
+        self.loop_tails = []
+        self.generator = any(isinstance(x, (ast.Yield, ast.YieldFrom)) for x in ast.walk(fn))
+        if any(isinstance(x, ast.YieldFrom) for x in ast.walk(fn)):
+            raise Unsupported("yield from", fn)
+        if self.generator and not is_list(spec.ret):
+            raise Unsupported("generator function where the declared result is not a list", fn)
+        fn.body = self.desugar_iterators(fn.body)
         self.escaping = self.escaping_names(fn)
+
+    def desugar_iterators(self, stmts):
+        """it = iter(X); try: while True: BODY(next(it))  except StopIteration: HANDLER
+           ==>  for tmp in X: BODY(tmp)  ; HANDLER
+        accepted only when next(it) occurs exactly once, inside the FIRST statement of BODY, `it` is used nowhere else,
+        BODY has no break, and nothing else in BODY is a call (so nothing else can raise StopIteration)."""
+        out = []
+        k = 0
+        while k < len(stmts):
+            a = stmts[k]
+            b = stmts[k + 1] if k + 1 < len(stmts) else None
+            if (isinstance(a, ast.Assign) and len(a.targets) == 1 and isinstance(a.targets[0], ast.Name)
+                    and isinstance(a.value, ast.Call) and isinstance(a.value.func, ast.Name) and a.value.func.id == "iter"
+                    and len(a.value.args) == 1 and not a.value.keywords and isinstance(b, ast.Try)):
+                it = a.targets[0].id
+                t = b
+                ok = (len(t.body) == 1 and isinstance(t.body[0], ast.While) and isinstance(t.body[0].test, ast.Constant)
+                      and t.body[0].test.value is True and not t.body[0].orelse and not t.orelse and not t.finalbody
+                      and len(t.handlers) == 1 and isinstance(t.handlers[0].type, ast.Name)
+                      and t.handlers[0].type.id == "StopIteration" and t.handlers[0].name is None)
+                if ok:
+                    body = t.body[0].body
+                    nexts = [x for st in body for x in ast.walk(st) if isinstance(x, ast.Call) and isinstance(x.func, ast.Name)
+                             and x.func.id == "next" and len(x.args) == 1 and isinstance(x.args[0], ast.Name) and x.args[0].id == it]
+                    first_nexts = [x for x in ast.walk(body[0]) if x in nexts] if body else []
+                    uses = [x for st in (body + t.handlers[0].body + stmts[k + 2:]) for x in ast.walk(st)
+                            if isinstance(x, ast.Name) and x.id == it]
+                    other_calls = [x for st in body for x in ast.walk(st) if isinstance(x, ast.Call) and x not in nexts
+                                   and not (isinstance(x.func, ast.Name) and x.func.id == "len")
+                                   and not (isinstance(x.func, ast.Attribute) and x.func.attr in ("append", "insert", "extend"))]
+                    brk = [x for st in body for x in ast.walk(st) if isinstance(x, (ast.Break, ast.Continue))]
+                    if len(nexts) == 1 and len(first_nexts) == 1 and len(uses) == 1 and not other_calls and not brk:
+                        tmp = "%s_item" % it
+                        class R(ast.NodeTransformer):
+                            def visit_Call(self, node):
+                                if node is nexts[0]:
+                                    return ast.copy_location(ast.Name(id=tmp, ctx=ast.Load()), node)
+                                return self.generic_visit(node)
+                        body2 = [R().visit(st) for st in body]
+                        loop = ast.copy_location(ast.For(target=ast.Name(id=tmp, ctx=ast.Store()), iter=a.value.args[0],
+                                                         body=body2, orelse=[], type_comment=None), t)
+                        ast.fix_missing_locations(loop)
+                        out.append(loop)
+                        out += self.desugar_iterators(t.handlers[0].body)
+                        k += 2
+                        continue
+                raise Unsupported("iter()/try form other than: it = iter(X); try: while True: ...next(it)... except StopIteration: ...", b)
+            out.append(a)
+            k += 1
+        return out
 
     @staticmethod
     def escaping_names(fn):
         """names that occur (as a value) anywhere except: receiver of .append/.insert, len(b), b[...], for ... in b, return b.
         A list bound to such a name may be referenced from elsewhere, so it is never updated in place."""
         ok = set()
+        # "yield b" immediately followed by "b = <new list>": the yielded list is no longer reachable through b
+        for n in ast.walk(fn):
+            for fld in ("body", "orelse"):
+                ss = getattr(n, fld, None)
+                if isinstance(ss, list):
+                    for a, b in zip(ss, ss[1:]):
+                        if (isinstance(a, ast.Expr) and isinstance(a.value, ast.Yield) and isinstance(a.value.value, ast.Name)
+                                and isinstance(b, ast.Assign) and len(b.targets) == 1 and isinstance(b.targets[0], ast.Name)
+                                and b.targets[0].id == a.value.value.id
+                                and isinstance(b.value, (ast.List, ast.ListComp))):
+                            ok.add(id(a.value.value))
         for n in ast.walk(fn):
             if isinstance(n, ast.Call):
                 f = n.func
-                if isinstance(f, ast.Attribute) and f.attr in ("append", "insert") and isinstance(f.value, ast.Name):
+                if isinstance(f, ast.Attribute) and f.attr in ("append", "insert", "extend") and isinstance(f.value, ast.Name):
                     ok.add(id(f.value))
                 if isinstance(f, ast.Name) and f.id == "len" and len(n.args) == 1 and isinstance(n.args[0], ast.Name):
                     ok.add(id(n.args[0]))
@@ -354,9 +529,30 @@ class FnTranslator:
                 ok.add(id(n.value))
             elif isinstance(n, ast.For) and isinstance(n.iter, ast.Name):
                 ok.add(id(n.iter))
-            elif isinstance(n, ast.Return) and isinstance(n.value, ast.Name):
-                ok.add(id(n.value))
-        return {n.id for n in ast.walk(fn) if isinstance(n, ast.Name) and isinstance(n.ctx, ast.Load) and id(n) not in ok}
+            elif isinstance(n, ast.Return) and n.value is not None:
+                for x in ast.walk(n.value):            # nothing runs after a return
+                    ok.add(id(x))
+        # a use that lies outside every loop and textually after the last in-place update of that name cannot be followed
+        # by an update (there is no backward jump outside loops)
+        in_loop = set()
+        for n in ast.walk(fn):
+            if isinstance(n, (ast.For, ast.While)):
+                for st in n.body + n.orelse:
+                    for x in ast.walk(st):
+                        in_loop.add(id(x))
+        last_update = {}
+        for n in ast.walk(fn):
+            if isinstance(n, ast.Call) and isinstance(n.func, ast.Attribute) and n.func.attr in ("append", "insert", "extend") \
+                    and isinstance(n.func.value, ast.Name):
+                nm = n.func.value.id
+                last_update[nm] = max(last_update.get(nm, 0), getattr(n, "end_lineno", n.lineno))
+        out = set()
+        for n in ast.walk(fn):
+            if isinstance(n, ast.Name) and isinstance(n.ctx, ast.Load) and id(n) not in ok:
+                if id(n) not in in_loop and n.lineno > last_update.get(n.id, 0):
+                    continue
+                out.add(n.id)
+        return out
 
     # ------------------------------------------------------------------ paths
     def path_of(self, n, env):
@@ -365,7 +561,7 @@ class FnTranslator:
             b = env.names.get(n.id)
             if b and b[0] == "path":
                 return b[1]
-            if b is None and n.id in env.inputs:      # a global callee declared by name
+            if b is None and (n.id in env.inputs or env.is_prefix(n.id)):      # a global (callee / constant) declared by name
                 return n.id
             return None
         if isinstance(n, ast.Attribute):
@@ -379,6 +575,10 @@ class FnTranslator:
             return X(c, t)
         if path in env.inputs:
             c, t = env.inputs[path]
+            root = path.rsplit(".", 1)[0] if "." in path else None
+            if root in env.state and is_fun(t) and len(t[1]) == 1 and t[1][0] == env.state[root][1]:
+                # an attribute of an object that is itself a (changing) state value: read through the declared reader
+                return X("%s %s" % (c, atom(env.state[root][0])), t[2])
             return X(c, t)
         raise Unsupported("read of %s which is not among the declared inputs of %s" % (self.show_path(path), self.spec.qual), node)
 
@@ -419,6 +619,9 @@ class FnTranslator:
 
     def e_Name(self, n, env, H):
         b = env.names.get(n.id)
+        if b is None and n.id in env.inputs:            # a module-level name declared as an input
+            c, t = env.inputs[n.id]
+            return X(c, t)
         if b is None:
             raise Unsupported("read of the name %s (not a parameter, not a local bound on every path to here)" % n.id, n)
         if b[0] == "local":
@@ -568,6 +771,12 @@ class FnTranslator:
             a, b = coerce(a, Z, n), coerce(b, Z, n)
         return X("if %s then %s else %s" % (c.s, atom(a.s) if a.cond else a.s, atom(b.s) if b.cond else b.s), ty, cond=(c, a, b))
 
+    def e_Tuple(self, n, env, H):
+        items = [settle(self.expr(e, env, H)) for e in n.elts]
+        if len(items) < 2:
+            raise Unsupported("tuple with fewer than two components", n)
+        return X("(" + ", ".join(i.s for i in items) + ")", ("P", tuple(i.ty for i in items)))
+
     def e_List(self, n, env, H):
         items = [settle(self.expr(e, env, H)) for e in n.elts]
         if not items:
@@ -593,8 +802,13 @@ class FnTranslator:
         sl = n.slice
         if isinstance(sl, ast.Slice):
             lo, hi, st = self.const_int(sl.lower), self.const_int(sl.upper), self.const_int(sl.step)
+            if st is None and lo is None and hi == "?":
+                k = coerce(self.expr(sl.upper, env, H), Z, sl.upper)
+                return X("py_upto_z %s %s" % (atom(k.s), atom(xs.s)), xs.ty, fresh=True)
+            if st is None and lo is None and hi is None:
+                return X(xs.s, xs.ty, fresh=True)           # xs[:]  a copy
             if st is not None or "?" in (lo, hi):
-                raise Unsupported("slice other than xs[:k], xs[k:], xs[:-1] with a literal k >= 0", n)
+                raise Unsupported("slice other than xs[:], xs[:k], xs[k:], xs[:-1]", n)
             if lo is None and hi is not None and hi >= 0:
                 return X("py_upto %d %s" % (hi, atom(xs.s)), xs.ty, fresh=True)
             if hi is None and lo is not None and lo >= 0:
@@ -609,8 +823,6 @@ class FnTranslator:
         if len(n.generators) != 1:
             raise Unsupported("comprehension with several generators", n)
         g = n.generators[0]
-        if g.ifs:
-            raise Unsupported("comprehension with a condition", n)
         if getattr(g, "is_async", 0):
             raise Unsupported("async comprehension", n)
         xs = self.expr(g.iter, env, H)
@@ -625,6 +837,10 @@ class FnTranslator:
             pat = "'(" + ", ".join(e2.bind(t.id, ty) for t, ty in zip(g.target.elts, et[1])) + ")"
         else:
             raise Unsupported("comprehension target", n)
+        dom = atom(xs.s)
+        if g.ifs:
+            conds = [atom(self.as_bool(self.expr(c, e2, None), c).s) for c in g.ifs]     # a condition may not raise
+            dom = "(filter (fun %s => %s) %s)" % (pat, " && ".join(conds), dom)
         h2 = []
         was_pure = self.pure
         try:
@@ -633,18 +849,55 @@ class FnTranslator:
         finally:
             self.pure = was_pure
         if h2:
+            if H is None:
+                raise Unsupported("comprehension whose element may raise, in a position Python may skip", n)
             if len(h2) == 1 and el.s == h2[0][0]:
-                if H is None:
-                    raise Unsupported("comprehension whose element may raise, in a position Python may skip", n)
-                return self.hoist("map_opt (fun %s => %s) %s" % (pat, h2[0][1], atom(xs.s)), L(el.ty), env, H, n, "comprehension", fresh=True)
-            raise Unsupported("comprehension element with a partial operation inside a larger expression", n)
-        return X("map (fun %s => %s) %s" % (pat, el.s, atom(xs.s)), L(el.ty), fresh=True)
+                body = h2[0][1]
+            else:
+                body = "Some %s" % atom(el.s)
+                for nm, tx in reversed(h2):
+                    body = "obind (%s) (fun %s => %s)" % (tx, nm, body)
+            return self.hoist("map_opt (fun %s => %s) %s" % (pat, body, dom), L(el.ty), env, H, n, "comprehension", fresh=True)
+        if isinstance(g.target, ast.Name) and el.s == pat and g.ifs:
+            return X(dom[1:-1], L(el.ty), fresh=True)          # [x for x in xs if c]  is the filter itself
+        return X("map (fun %s => %s) %s" % (pat, el.s, dom), L(el.ty), fresh=True)
 
     def e_ListComp(self, n, env, H):
         return self.comprehension(n, env, H)
 
     def e_GeneratorExp(self, n, env, H):
         return self.comprehension(n, env, H)
+
+    def apply_callee(self, c, ft, first, n, env, H, what):
+        """application of a declared function: positional arguments, then keywords by name, then declared defaults"""
+        argtys, ret, partial = ft[1], ft[2], ft[3]
+        kw = ft[4] if len(ft) > 4 else ()
+        kwdef = dict(ft[5]) if len(ft) > 5 else {}
+        slots = [None] * len(argtys)
+        pos = list(first) + [None] * len(n.args)
+        if len(first) + len(n.args) > len(argtys):
+            raise Unsupported("call of %s with %d arguments (declared %d)" % (what, len(first) + len(n.args), len(argtys)), n)
+        for k, x in enumerate(first):
+            slots[k] = coerce(x, argtys[k], n)
+        for k, a in enumerate(n.args):
+            slots[len(first) + k] = coerce(self.expr(a, env, H), argtys[len(first) + k], a)
+        for kwd in n.keywords:
+            if kwd.arg not in kw:
+                raise Unsupported("keyword argument %s in a call of %s" % (kwd.arg, what), n)
+            k = len(argtys) - len(kw) + kw.index(kwd.arg)
+            if slots[k] is not None:
+                raise Unsupported("argument %s given twice" % kwd.arg, n)
+            slots[k] = coerce(self.expr(kwd.value, env, H), argtys[k], kwd.value)
+        for k in range(len(argtys)):
+            if slots[k] is None:
+                nm = kw[k - (len(argtys) - len(kw))] if k >= len(argtys) - len(kw) else None
+                if nm is None or nm not in kwdef:
+                    raise Unsupported("call of %s without its argument %d" % (what, k), n)
+                slots[k] = X(kwdef[nm], argtys[k])
+        s = c + " " + " ".join(atom(a.s) for a in slots) if slots else c
+        if partial:
+            return self.hoist(s, ret, env, H, n, "call of " + what)
+        return X(s, ret)
 
     def callee_name(self, f):
         if isinstance(f, ast.Name):
@@ -654,18 +907,36 @@ class FnTranslator:
         return None
 
     def e_Call(self, n, env, H):
-        if n.keywords or any(isinstance(a, ast.Starred) for a in n.args):
-            raise Unsupported("call with keyword or starred arguments", n)
+        if any(isinstance(a, ast.Starred) for a in n.args) or any(k.arg is None for k in n.keywords):
+            raise Unsupported("call with starred arguments", n)
         path = self.path_of(n.func, env)
-        if path is not None and path in env.inputs and is_fun(env.inputs[path][1]):
+        if path is not None and (path + "()") in env.inputs:
+            c, ft = env.inputs[path + "()"]
+            return self.apply_callee(c, ft, [self.read_path(path, env, n)], n, env, H, self.show_path(path) + "(...)")
+        if path is not None and path in env.inputs and is_fun(env.inputs[path][1]) and path not in self.spec.effects:
             c, ft = env.inputs[path]
-            if len(n.args) != len(ft[1]):
-                raise Unsupported("call of %s with %d arguments (declared %d)" % (self.show_path(path), len(n.args), len(ft[1])), n)
-            args = [coerce(self.expr(a, env, H), t, a) for a, t in zip(n.args, ft[1])]
-            s = c + " " + " ".join(atom(a.s) for a in args)
-            if ft[3]:
-                return self.hoist(s, ft[2], env, H, n, "call of " + self.show_path(path))
-            return X(s, ft[2])
+            return self.apply_callee(c, ft, [], n, env, H, self.show_path(path))
+        # method of an opaque object:  e.m(args)  with ("@<type>.m") declared
+        if isinstance(n.func, ast.Attribute):
+            was = self.pure
+            try:
+                self.pure = False
+                recv = self.expr(n.func.value, env.copy(), [])        # probe: only the type is used
+            except (Unsupported, NeedCtl):
+                recv = None
+            finally:
+                self.pure = was
+            if recv is not None and isinstance(recv.ty, str) and ("@%s.%s" % (recv.ty, n.func.attr)) in env.inputs:
+                c, ft = env.inputs["@%s.%s" % (recv.ty, n.func.attr)]
+                recv = self.expr(n.func.value, env, H)
+                return self.apply_callee(c, ft, [recv], n, env, H, "method " + n.func.attr)
+        # call of a local / parameter that holds a function
+        if isinstance(n.func, ast.Name) and n.func.id in env.names:
+            b = env.names[n.func.id]
+            if b[0] == "local" and is_fun(b[2]):
+                return self.apply_callee(b[1], b[2], [], n, env, H, "local function " + n.func.id)
+        if n.keywords:
+            raise Unsupported("call with keyword arguments of " + (self.callee_name(n.func) or "an expression"), n)
         name = self.callee_name(n.func)
         if name is not None and isinstance(n.func, ast.Name) and name in env.names:
             raise Unsupported("call of a local value " + name, n)
@@ -684,6 +955,18 @@ class FnTranslator:
                 a, b = coerce(a, V, n), coerce(b, V, n)
                 return X("py_%s O %s %s" % (name, atom(a.s), atom(b.s)), V)
             raise Unsupported("%s of ints" % name, n)
+        if name == "sum" and len(args) == 1:
+            a = self.expr(args[0], env, H)
+            if a.ty == L(V):
+                return X("py_sum O " + atom(a.s), V)
+            raise Unsupported("sum over " + show_ty(a.ty), n)
+        if name in ("min", "max") and len(args) == 1:
+            a = self.expr(args[0], env, H)
+            if a.ty == L(V):
+                return self.hoist("py_list_%s O %s" % (name, atom(a.s)), V, env, H, n, name + " of a list (ValueError when empty)")
+            raise Unsupported("%s over %s" % (name, show_ty(a.ty)), n)
+        if name == "math.sqrt" and len(args) == 1 and "math.sqrt" in env.inputs:
+            pass
         if name == "math.floor" and len(args) == 1:
             a = coerce(self.expr(args[0], env, H), V, n)
             return X("n_floor O " + atom(a.s), Z)
@@ -704,6 +987,9 @@ class FnTranslator:
             if a.ty == Z:
                 return X("negb (%s =? 0)" % atom(a.s), B)
             raise Unsupported("bool() of " + show_ty(a.ty), n)
+        if name == "range" and len(args) == 1 and "range" not in env.names:
+            a = coerce(self.expr(args[0], env, H), Z, n)
+            return X("zrange " + atom(a.s), L(Z), fresh=True)
         if name == "len" and len(args) == 1:
             a = self.expr(args[0], env, H)
             if is_list(a.ty):
@@ -752,14 +1038,21 @@ class FnTranslator:
 
     def always_returns(self, stmts):
         for s in stmts:
-            if isinstance(s, ast.Return):
+            if isinstance(s, (ast.Return, ast.Break)):
                 return True
             if isinstance(s, ast.If) and s.orelse and self.always_returns(s.body) and self.always_returns(s.orelse):
                 return True
         return False
 
     def has_return(self, stmts):
-        return any(isinstance(x, ast.Return) for s in stmts for x in ast.walk(s))
+        return any(isinstance(x, (ast.Return, ast.Break)) for s in stmts for x in ast.walk(s))
+
+    def s_Break(self, s, rest, env, tail):
+        if not self.loop_tails:
+            raise Unsupported("break outside a while loop", s)
+        env = env.copy()
+        env.names["%brk"] = ("local", "true", B)
+        return ["Next " + atom(tuple_of(self.current(self.loop_tails[-1], env)))]
 
     def assigned(self, stmts, env=None):
         """python names / state paths (as '@path') stored anywhere in stmts, in order of first store"""
@@ -775,8 +1068,9 @@ class FnTranslator:
             elif isinstance(t, (ast.Tuple, ast.List)):
                 for e in t.elts:
                     tgt(e)
-            elif isinstance(t, ast.Attribute):
-                p = self.path_of(t, env) if env is not None else None
+            elif isinstance(t, ast.Attribute) or (isinstance(t, ast.Subscript) and self.full_slice(t) and isinstance(t.value, ast.Attribute)):
+                t0 = t if isinstance(t, ast.Attribute) else t.value
+                p = self.path_of(t0, env) if env is not None else None
                 add("@" + p if p in self.spec.state else "?store into " + ast.unparse(t))
             else:
                 add("?" + type(t).__name__)
@@ -797,11 +1091,40 @@ class FnTranslator:
                     walk(s.body)
                     walk(s.orelse)
                 elif isinstance(s, ast.Expr) and isinstance(s.value, ast.Call):
-                    f = s.value.func       # b.append(x) / b.insert(0, x) store into the local list b
-                    if isinstance(f, ast.Attribute) and f.attr in ("append", "insert") and isinstance(f.value, ast.Name):
+                    f = s.value.func       # b.append(x) / b.insert(0, x) / b.extend(xs) store into the local list b
+                    if isinstance(f, ast.Attribute) and f.attr in ("append", "insert", "extend") and isinstance(f.value, ast.Name):
                         add(f.value.id)
+                elif isinstance(s, ast.Expr) and isinstance(s.value, ast.Yield):
+                    add("%out")
+                if isinstance(s, ast.Expr) and isinstance(s.value, ast.Call) and env is not None:
+                    fp = self.effect_key(s.value, env, loose=True)[0]
+                    if fp in self.spec.effects:
+                        for w in self.spec.effects[fp]["writes"]:
+                            add("@" + w)
         walk(stmts)
         return out
+
+    def effect_key(self, call, env, loose=False):
+        """key of spec.effects for a call in statement position: the path of the callee, or "@<type>.<method>" for a method
+        of an opaque local (then also the receiver).  loose: the receiver may be a loop variable not yet bound."""
+        fp = self.path_of(call.func, env)
+        if fp is not None:
+            return fp, None
+        f = call.func
+        if isinstance(f, ast.Attribute) and isinstance(f.value, ast.Name):
+            b = env.names.get(f.value.id)
+            if b and b[0] == "local" and isinstance(b[2], str):
+                return "@%s.%s" % (b[2], f.attr), X(b[1], b[2])
+            if loose:
+                for k in self.spec.effects:
+                    if k.startswith("@") and k.endswith("." + f.attr):
+                        return k, None
+        return None, None
+
+    @staticmethod
+    def full_slice(t):
+        return isinstance(t, ast.Subscript) and isinstance(t.slice, ast.Slice) and t.slice.lower is None \
+            and t.slice.upper is None and t.slice.step is None
 
     def with_hoists(self, H, lines):
         for name, text in reversed(H):
@@ -812,6 +1135,8 @@ class FnTranslator:
         return [env.state[p][0] for p in self.spec.state]
 
     def ret_term(self, x, env):
+        if self.spec.ret is None:
+            return tuple_of(self.state_vars(env))
         if self.spec.state:
             return "(" + ", ".join(self.state_vars(env) + [x.s]) + ")"
         return x.s
@@ -821,6 +1146,13 @@ class FnTranslator:
         current values are delivered by Next"""
         stmts = [s for s in stmts if not self.ignorable(s)]
         if not stmts:
+            if tail is None and self.generator:
+                if self.pure:
+                    raise NeedCtl()
+                return ["Ret " + atom(self.ret_term(X(env.names["%out"][1], self.spec.ret), env))]
+            if tail is None and self.spec.ret is None:
+                t = self.ret_term(None, env)          # a procedure: its result is the final value of the state paths
+                return [t] if self.pure else ["Ret " + atom(t)]
             if tail is None:
                 raise Unsupported("a path falls off the end of the function (implicit return None)", self.fn)
             if self.pure:
@@ -847,8 +1179,15 @@ class FnTranslator:
     def s_Return(self, s, rest, env, tail):
         if [r for r in rest if not self.ignorable(r)]:
             raise Unsupported("unreachable statements after return", rest[0])
+        if s.value is None and self.generator:
+            return ["Ret " + atom(self.ret_term(X(env.names["%out"][1], self.spec.ret), env))]
+        if s.value is None and self.spec.ret is None:
+            t = self.ret_term(None, env)
+            return [t] if self.pure else ["Ret " + atom(t)]
         if s.value is None:
             raise Unsupported("return without a value", s)
+        if self.generator:
+            raise Unsupported("return with a value inside a generator", s)
         H = []
         x = coerce(self.expr(s.value, env, H), self.spec.ret, s)
         t = self.ret_term(x, env)
@@ -867,6 +1206,8 @@ class FnTranslator:
                 if is_list(x.ty):
                     self.tainted.add(target.id)
             return env.bind(target.id, x.ty), x
+        if self.full_slice(target) and isinstance(target.value, ast.Attribute):
+            target = target.value           # obj.attr[:] = e  replaces the contents of the attribute
         if isinstance(target, ast.Attribute):
             path = self.path_of(target, env)
             if path is None or path not in self.spec.state:
@@ -929,10 +1270,45 @@ class FnTranslator:
         return self.s_Assign(a, rest, env, tail)
 
     def s_Expr(self, s, rest, env, tail):
-        # b.append(e)  /  b.insert(0, e) on a local list
         v = s.value
+        # yield e  in a generator: the value is appended to the sequence the generator produces
+        if isinstance(v, ast.Yield):
+            if not self.generator:
+                raise Unsupported("yield", s)
+            if v.value is None:
+                raise Unsupported("yield without a value", s)
+            if self.pure:
+                raise NeedCtl()
+            H = []
+            e = coerce(settle(self.expr(v.value, env, H)), self.spec.ret[1], s)
+            out = env.names["%out"]
+            x = X("%s ++ [%s]" % (out[1], e.s), self.spec.ret)
+            env = env.copy()
+            pat = env.bind("%out", self.spec.ret)
+            return self.let_lines(H, pat, x, self.block(rest, env, tail))
+        # a declared effect:  self.evaluate(solution)  updates attributes of the objects it is given
+        if isinstance(v, ast.Call):
+            fp, recv = self.effect_key(v, env)
+            if fp in self.spec.effects:
+                ef = self.spec.effects[fp]
+                if v.keywords or len(v.args) != len(ef["args"]) or \
+                        any(self.path_of(a, env) != p for a, p in zip(v.args, ef["args"])):
+                    raise Unsupported("call of %s with arguments other than the declared objects" % self.show_path(fp), s)
+                if self.pure:
+                    raise NeedCtl()
+                c, ft = env.inputs[fp]
+                reads = ([recv] if recv is not None else []) + [self.read_path(r, env, s) for r in ef["reads"]]
+                env = env.copy()
+                names = []
+                for w in ef["writes"]:
+                    cw = env.inputs[w][0] + "'"
+                    env.state[w] = (cw, env.inputs[w][1])
+                    names.append(cw)
+                call = c + " " + " ".join(atom(r.s) for r in reads)
+                return ["let %s := %s in" % (pat_of(names), call)] + self.block(rest, env, tail)
+        # b.append(e)  /  b.insert(0, e)  /  b.extend(xs) on a local list
         if isinstance(v, ast.Call) and isinstance(v.func, ast.Attribute) and isinstance(v.func.value, ast.Name) \
-                and v.func.attr in ("append", "insert") and not v.keywords:
+                and v.func.attr in ("append", "insert", "extend") and not v.keywords:
             b = env.names.get(v.func.value.id)
             if b and b[0] == "local" and is_list(b[2]):
                 nm = v.func.value.id
@@ -947,6 +1323,12 @@ class FnTranslator:
                     e = settle(self.expr(v.args[1], env, H))
                     e = e if b[2][1] is None else coerce(e, b[2][1], s)
                     x = X("%s :: %s" % (atom(e.s), b[1]), L(e.ty))
+                elif v.func.attr == "extend" and len(v.args) == 1:
+                    e = self.expr(v.args[0], env, H)
+                    if not is_list(e.ty):
+                        raise Unsupported("extend with a non-list", s)
+                    e = e if b[2][1] is None else coerce(e, b[2], s)
+                    x = X("%s ++ %s" % (b[1], atom(e.s)), e.ty if b[2][1] is None else b[2])
                 else:
                     raise Unsupported("list method call " + ast.unparse(v)[:60], s)
                 env = env.copy()
@@ -1000,7 +1382,24 @@ class FnTranslator:
                 out.append(b[2] if b and b[0] == "local" else None)
         return out
 
+    def norm_text(self, node, env):
+        """source text of an expression with the positional parameters written <k>"""
+        class R(ast.NodeTransformer):
+            def visit_Name(self2, n):
+                b = env.names.get(n.id)
+                if b and b[0] == "path" and b[1].isdigit():
+                    return ast.copy_location(ast.Name(id="<%s>" % b[1], ctx=n.ctx), n)
+                return n
+        import copy as _copy
+        return ast.unparse(R().visit(_copy.deepcopy(node)))
+
     def s_If(self, s, rest, env, tail):
+        key = self.norm_text(s.test, env)
+        if key in self.spec.assume:
+            if key not in self.spec.used_assumptions:
+                self.spec.used_assumptions.append(key)
+            taken = s.body if self.spec.assume[key] else s.orelse
+            return self.block(list(taken) + list(rest), env, tail)
         H = []
         c = self.as_bool(self.expr(s.test, env, H), s.test)
         A, Bk = s.body, s.orelse
@@ -1081,12 +1480,13 @@ class FnTranslator:
             if v.startswith("?"):
                 raise Unsupported("assignment target " + v[1:], s)
             if v.startswith("@"):
-                raise Unsupported("attribute store inside a loop", s)
+                vars_.append(v)
+                continue
             if v == s.target.id:
                 raise Unsupported("assignment to the loop variable", s)
             if v in env.names and env.names[v][0] == "local":
                 vars_.append(v)
-        vars_.sort(key=lambda v: env.order.index(v))
+        vars_.sort(key=lambda v: (1, self.spec.state.index(v[1:])) if v.startswith("@") else (0, env.order.index(v)))
         types = self.types_of(vars_, env)
         init = tuple_of(self.current(vars_, env))
         eb = env.copy()
@@ -1128,20 +1528,28 @@ class FnTranslator:
             raise NeedCtl()
         if s.orelse:
             raise Unsupported("while/else", s)
+        has_break = False
         for x in ast.walk(s):
-            if isinstance(x, (ast.Break, ast.Continue)):
-                raise Unsupported(type(x).__name__.lower(), x)
+            if isinstance(x, ast.Continue):
+                raise Unsupported("continue", x)
+            if isinstance(x, ast.Break):
+                has_break = True
+        for st in s.body:
+            for x in ast.walk(st):
+                if isinstance(x, (ast.For, ast.While)) and any(isinstance(y, ast.Break) for y in ast.walk(x)):
+                    raise Unsupported("break inside a nested loop", x)
         if "fuel" not in self.spec.inputs[0][0:1]:
             raise Unsupported("while loop (no fuel parameter declared for this function)", s)
-        if self.has_return(s.body):
-            raise Unsupported("return inside a while loop", s)
         self.uses_fuel = True
         stored = self.assigned(s.body, env)
         # the state = locals stored in the body that exist before the loop, plus locals the condition reads that exist before
         vars_ = []
         for v in stored:
-            if v.startswith("?") or v.startswith("@"):
+            if v.startswith("?"):
                 raise Unsupported("assignment target inside while", s)
+            if v.startswith("@"):
+                vars_.append(v)
+                continue
             b = env.names.get(v)
             if b and b[0] == "local":
                 vars_.append(v)
@@ -1151,12 +1559,18 @@ class FnTranslator:
         pre = []
         env = env.copy()
         for v in vars_:
+            if v.startswith("@"):
+                continue
             b = env.names[v]
             if b[0] == "path":
                 c0, t0 = env.inputs[b[1]]
                 c = env.bind(v, t0)
                 pre.append("let %s := %s in" % (c, c0))
-        vars_.sort(key=lambda v: env.order.index(v))
+        vars_.sort(key=lambda v: (1, self.spec.state.index(v[1:])) if v.startswith("@") else (0, env.order.index(v)))
+        if has_break:
+            # "break" = leave with the flag set; the loop condition tests the flag first
+            pre.append("let %s := false in" % env.bind("%brk", B))
+            vars_.append("%brk")
         types = self.types_of(vars_, env)
         init = tuple_of(self.current(vars_, env))
         eb = env.copy()
@@ -1166,7 +1580,13 @@ class FnTranslator:
         if cx.ty == Z:
             cx = X("negb (%s =? 0)" % atom(cx.s), B)     # while n:  on an int
         self.as_bool(cx, s.test)
-        body = self.block(s.body, eb, vars_)
+        if has_break:
+            cx = X("negb brk && %s" % atom(cx.s), B)
+        self.loop_tails.append(vars_)
+        try:
+            body = self.block(s.body, eb, vars_)
+        finally:
+            self.loop_tails.pop()
         types2 = self.merge_types(vars_, types, self.types_of(vars_, eb), s)
         env2 = env.copy()
         names2 = self.rebind(vars_, env2, types2)
@@ -1179,6 +1599,7 @@ class FnTranslator:
     # ------------------------------------------------------------------ function
     def translate(self):
         fn, spec = self.fn, self.spec
+        spec.used_assumptions = []
         a = fn.args
         if a.vararg or a.kwarg or a.kwonlyargs or getattr(a, "posonlyargs", []):
             raise Unsupported("parameter list with * / ** / keyword-only parameters", fn)
@@ -1197,7 +1618,7 @@ class FnTranslator:
         for pname, d in zip(params[len(params) - len(a.defaults):], a.defaults):
             k = params.index(pname)
             ent = env0.inputs.get(str(k))
-            if ent is None:
+            if ent is None or ent[0] not in spec.defaults:
                 continue
             x = coerce(self.expr(d, Env(spec), None), ent[1], d)
             defaults[ent[0]] = x
@@ -1205,22 +1626,31 @@ class FnTranslator:
             if dn not in defaults:
                 raise Unsupported("parameter %s has no default value any more" % dn, fn)
         lines = None
-        for pure in (True, False):
+        pre = []
+        if self.generator:
+            c = env0.bind("%out", spec.ret)
+            pre = ["let %s := [] in" % c]
+        for pure in ((False,) if self.generator else (True, False)):
             self.pure = pure
             try:
-                lines = self.block(fn.body, env0.copy(), None)
+                lines = pre + self.block(fn.body, env0.copy(), None)
                 break
             except NeedCtl:
                 continue
-        ret = coq_type(spec.ret)
+        ret = coq_type(spec.ret) if spec.ret is not None else "unit"
         if spec.state:
-            ret = " * ".join([coq_type(env0.inputs[p][1], False) for p in spec.state] + [coq_type(spec.ret, False)])
+            ret = " * ".join([coq_type(env0.inputs[p][1], False) for p in spec.state] + ([coq_type(spec.ret, False)] if spec.ret is not None else []))
         if not self.pure:
             lines = ["finish ("] + indent(lines) + [")"]
             ret = "option " + (ret if IDENT.match(ret) else "(" + ret + ")")
         binders = " ".join("(%s : %s)" % (c, t if t == "nat" else coq_type(t)) for _, c, t in spec.inputs)
         end = getattr(fn, "end_lineno", fn.lineno)
         out = ["(* %s:%d-%d  %s%s *)" % (spec.file, fn.lineno, end, spec.qual, "" if self.pure else "   [ctl style: None = exception]")]
+        for k in spec.used_assumptions:
+            out.append("(* ASSUMED for this definition:  %s  is %s *)" % (k, spec.assume[k]))
+        missing = [k for k in spec.assume if k not in spec.used_assumptions]
+        if missing:
+            raise Unsupported("declared assumption no longer occurs as an if-test: " + "; ".join(missing), fn)
         for dn, x in defaults.items():
             if dn in spec.defaults:
                 ty = [t for _, c, t in spec.inputs if c == dn][0]
@@ -1233,7 +1663,7 @@ class FnTranslator:
 
 # ----------------------------------------------------------------------------------------------- driver
 HEADER = """(* GENERATED by harness/translate/py2coq_core.py from the Python source of platypus/core.py, platypus/_math.py and
-   platypus/types.py — do not edit.  Regenerated on every run of ./check C02 C03 C04 C05 C06 C08 C11 C17; rewritten only
+   platypus/types.py, evaluator.py, filters.py, distance.py — do not edit.  Regenerated on every run of the checks that use it; rewritten only
    when its content changes.  The reading of Python is fixed by coq/Base/PyCore.v (see its header); the hand models
    are NOT imported here: coq/Tie/T*.v prove each definition below equal to its hand model. *)
 From Coq Require Import ZArith QArith Bool List.
@@ -1245,7 +1675,7 @@ Section Gen.
   Variable V : Type.          (* carrier of float-valued expressions *)
   Variable O : NumOps V.      (* the operations the code applies to them *)
   Variable T : Type.          (* opaque objects (solutions) *)
-"""
+@OPAQUE@"""
 FOOTER = "End Gen.\n"
 
 
@@ -1274,9 +1704,22 @@ def translate_sources(sources, only=None):
     """sources: {relative file name: text}.  Returns (text of Gen/Core.v, {qual: {ok, error, coq}})"""
     trees = {}
     results = {}
-    chunks = [HEADER]
+    opaque = []
+
+    def scan(t):
+        if isinstance(t, str) and t.startswith("T_") and t not in opaque:
+            opaque.append(t)
+        elif isinstance(t, tuple):
+            for x in t:
+                if isinstance(x, (tuple, str)):
+                    scan(x)
     for spec in SPECS:
-        if only is not None and spec.qual not in only:
+        for _, _, t in spec.inputs:
+            scan(t)
+        scan(spec.ret)
+    chunks = [HEADER.replace("@OPAQUE@", "".join("  Variable %s : Type.\n" % t[2:] for t in opaque))]
+    for spec in SPECS:
+        if only is not None and spec.key not in only:
             continue
         try:
             if spec.file not in trees:
@@ -1293,10 +1736,10 @@ def translate_sources(sources, only=None):
             fn, cls = find_function(tree, spec.qual)
             text = FnTranslator(spec, fn, cls).translate()
             chunks.append("\n".join("  " + ln if ln else ln for ln in text.split("\n")) + "\n")
-            results[spec.qual] = {"ok": True, "error": "", "coq": spec.coq}
+            results[spec.key] = {"ok": True, "error": "", "coq": spec.coq}
         except Unsupported as u:
-            results[spec.qual] = {"ok": False, "error": "%s: %s" % (spec.file, u), "coq": spec.coq}
-            chunks.append("  (* %s: NOT TRANSLATED: %s *)\n" % (spec.qual, str(u).replace("*)", "* )").replace("(*", "( *")))
+            results[spec.key] = {"ok": False, "error": "%s: %s" % (spec.file, u), "coq": spec.coq}
+            chunks.append("  (* %s: NOT TRANSLATED: %s *)\n" % (spec.key, str(u).replace("*)", "* )").replace("(*", "( *")))
     chunks.append(FOOTER)
     return "\n".join(chunks), results
 
